@@ -767,6 +767,7 @@ func (in *Interp) uninterp(name string, s Sort, args []Value, rt types.Type) Val
 	}
 	t := in.ts.Fresh("uf."+name, s)
 	in.stuFns[key] = t
+	in.ufApps = append(in.ufApps, ufApp{fn: name, args: append([]Value(nil), args...), res: t})
 	return t
 }
 
